@@ -164,6 +164,60 @@ bop%(u)s(n: SI): Integer == {
     return d, [], "bop%s(%d)" % (u, min(n, 120))
 
 
+def b_scalararr(u, rng, n):
+    """Arrays of every scalar element type (the runtime has a constructor per type)."""
+    d = '''
+sca%(u)s(n: SI): SI == {
+	import from Boolean, Character, DoubleFloat, SingleFloat;
+	import from Array Boolean, Array Character, Array DoubleFloat, Array SingleFloat;
+	composite: Array Boolean := new(n + 2, false);
+	count: SI := 0;
+	for i: SI in 2..n repeat {
+		if not composite.i then {
+			count := count + 1;
+			for j: SI in i+i..n by i repeat composite.j := true;
+		}
+	}
+	cs: Array Character := new(n + 2, char "a");
+	for i: SI in 1..n repeat if i rem 3 = 0 then cs.i := char "b";
+	for i: SI in 1..n repeat if cs.i = char "b" then count := count + 1;
+	ds: Array DoubleFloat := new(n + 2, 0.5);
+	fs: Array SingleFloat := new(n + 2, 0.25);
+	acc: DoubleFloat := 0.0;
+	for i: SI in 1..n repeat { ds.i := ds.i + i::DoubleFloat; acc := acc + ds.i }
+	facc: SingleFloat := 0.0;
+	for i: SI in 1..n repeat facc := facc + fs.i;
+	(count + (integer acc)::SI + (integer facc)::SI) rem %(M)d
+}
+''' % dict(u=u, M=M)
+    return d, [], "sca%s(%d)" % (u, min(max(n, 10), 2000))
+
+
+def b_rterr(u, rng, n):
+    """Runtime errors raised by the runtime library itself and caught by the program: a big-integer
+    division by zero inside try/catch, several times, between ordinary work."""
+    d = '''
+rtq%(u)s(a: Integer, b: Integer): Integer == {
+	try a quo b catch E in {
+		true => -1;
+		never;
+	}
+}
+rte%(u)s(n: SI): Integer == {
+	import from List Integer;
+	s: Integer := 0;
+	l: List Integer := nil;
+	for i: SI in 1..n repeat {
+		l := cons((i::Integer)^12, l);
+		s := s + rtq%(u)s(10^20 + i::Integer, (i rem 4)::Integer);
+	}
+	for x in l repeat s := s + x rem 1000003;
+	s rem 1000000007
+}
+''' % dict(u=u)
+    return d, [], "rte%s(%d)" % (u, min(n, 400))
+
+
 def b_string(u, rng, n):
     piece = rng.choice(["ab", "xyz", "q", "hello "])
     d = '''
@@ -674,7 +728,7 @@ bdr%(u)s(rounds: SI): SI == {
 
 
 BLOCKS = [("list", b_list, 4), ("record", b_record, 4), ("node", b_node, 2), ("closure", b_closure, 2),
-          ("generator", b_generator, 2), ("bigint", b_bigint, 3), ("bigops", b_bigops, 2), ("string", b_string, 2), ("table", b_table, 2),
+          ("generator", b_generator, 2), ("bigint", b_bigint, 3), ("bigops", b_bigops, 2), ("scalararr", b_scalararr, 3), ("rterr", b_rterr, 3), ("string", b_string, 2), ("table", b_table, 2),
           ("array", b_array, 3), ("domain", b_domain, 1),
           ("docs", b_docs, 2), ("exn", b_exn, 2), ("union", b_union, 2), ("float", b_float, 1), ("tokens", b_tokens, 1),
           ("deeprec", b_deeprec, 2), ("ptrarray", b_ptrarray, 2), ("dyndom", b_dyndom, 2),
